@@ -17,9 +17,13 @@ WsSiteSeq == SetToSeq(UNION {{<<k, s>> : s \in WsSites(k)} : k \in JudgedKinds})
 \* 701..: the whole byte range in identifier-like arguments (quick: one statement per kind, and prefix)
 ByteSites(k) == IF Thorough THEN SitesFor(k, Thorough) ELSE {OneSite(k)} \cup (IF k = "identifier" THEN {<<"prefix", HostKw("prefix")>>} ELSE {})
 ByteSiteSeq == SetToSeq(UNION {{<<k, s>> : s \in ByteSites(k)} : k \in ByteKinds})
+\* 801..: closed-list (keyword) arguments, one kind on EVERY statement of that kind (both tiers)
+KwSiteSeq == SetToSeq(UNION {{<<k, s>> : s \in SitesOf(k)} : k \in KwKinds})
+\* 901..: the same, one statement keyword under every parent that allows it
+KwStmtSeq == SetToSeq(UNION {{<<k, w>> : w \in KwStmts(k)} : k \in KwKinds})
 AllFams == (1..Len(ParentSeq)) \cup {100 + i : i \in 1..Len(SiteSeq)} \cup {200, 201, 202, 203, 205, 206, 207, 208, 209, 210, 211, 300, 302, 303, 304}
            \cup {400 + i : i \in 1..Len(ParentSeq)} \cup {500 + i : i \in 1..Len(SiteSeq)}
-           \cup {600 + i : i \in 1..Len(WsSiteSeq)} \cup {700 + i : i \in 1..Len(ByteSiteSeq)}
+           \cup {600 + i : i \in 1..Len(WsSiteSeq)} \cup {700 + i : i \in 1..Len(ByteSiteSeq)} \cup {800 + i : i \in 1..Len(KwSiteSeq)} \cup {900 + i : i \in 1..Len(KwStmtSeq)}
 
 Probe(f, lab, tree, clean) ==
   [fam |-> f, lab |-> lab, tree |-> tree, comp |-> Companions(tree), compile |-> TRUE, clean |-> clean,
@@ -39,6 +43,11 @@ WsProbes(f) == LET kind == WsSiteSeq[f - 600][1]  s == WsSiteSeq[f - 600][2] IN
   {LET t == ArgTree(s[1], s[2], a) IN Probe(f, <<"arg", kind, s[1], a>>, t, FALSE) : a \in WsCands(kind) \cup GramCands(kind, Thorough)}
 ByteProbes(f) == LET kind == ByteSiteSeq[f - 700][1]  s == ByteSiteSeq[f - 700][2] IN
   {LET t == ArgTree(s[1], s[2], a) IN Probe(f, <<"arg", kind, s[1], a>>, t, FALSE) : a \in ByteCands(kind, Thorough)}
+KwArgProbes(f) == LET kind == KwSiteSeq[f - 800][1]  s == KwSiteSeq[f - 800][2] IN
+  {LET t == ArgTree(s[1], s[2], a) IN Probe(f, <<"arg", kind, s[1], a>>, t, ArgClean(kind, s[1], a, t)) : a \in KwCands(kind, Thorough)}
+KwUnderProbes(f) == LET kind == KwStmtSeq[f - 900][1]  kw == KwStmtSeq[f - 900][2] IN
+  UNION {{LET t == ArgUnderTree(P, kw, a) IN Probe(f, <<"argin", P, kw, a>>, t, CardClean(P, kw, 1) /\ ArgClean(kind, kw, a, t)) : a \in KwCore(kind, Thorough)}
+         : P \in KwParents(kw)}
 \* 210 / 211: extension statements named after the parser's own keywords
 ExtNameProbes(f) ==
   {Probe(f, <<"extname", x.P, x.kw, x.v>>, x.tree, x.P \in ParentIds => CardClean(x.P, ExtKw, 1))
@@ -81,6 +90,8 @@ GNext == /\ ~done /\ done' = TRUE /\ UNCHANGED fam
               ELSE IF fam \in {206, 207} THEN OrderExtProbes(fam)
               ELSE IF fam \in {208, 209} THEN RevExtProbes(fam)
               ELSE IF fam \in {210, 211} THEN ExtNameProbes(fam)
+              ELSE IF fam >= 901 THEN KwUnderProbes(fam)
+              ELSE IF fam >= 801 THEN KwArgProbes(fam)
               ELSE IF fam >= 701 THEN ByteProbes(fam)
               ELSE IF fam >= 601 THEN WsProbes(fam)
               ELSE IF fam = 300 THEN RandBases
